@@ -31,8 +31,12 @@ pub struct Bounds {
     pub shapes: Vec<Shape>,
     pub strategies: Vec<u8>,
     pub ghosts: bool,
+    /// also enumerate the ghost removed after the first addition
+    pub ghosts_late: bool,
     pub with_ranks: bool,
     pub naming: Naming,
+    /// property on whose behalf the exploration runs (key prefix of a panic while observing)
+    pub prop: String,
 }
 
 impl Bounds {
@@ -42,7 +46,7 @@ impl Bounds {
             "removals_per_step": self.removals,
             "shapes_size_align": self.shapes.iter().map(Shape::to_json).collect::<Vec<_>>(),
             "strategies": self.strategies.iter().map(|s| STRATEGIES[*s as usize]).collect::<Vec<_>>(),
-            "ghost_datum_option": self.ghosts, "key_includes_id_ranks": self.with_ranks,
+            "ghost_datum_option": self.ghosts, "ghost_removed_late_option": self.ghosts && self.ghosts_late, "key_includes_id_ranks": self.with_ranks,
             "names": format!("{:?}", self.naming),
         })
     }
@@ -50,8 +54,11 @@ impl Bounds {
 
 pub type Key = Box<[u8]>;
 
-pub fn key_of(list: &[DatumObs], with_ranks: bool) -> Key {
-    let mut k = Vec::with_capacity(list.len() * 6 + 1);
+/// `ghosts`: ids that were issued but belong to no variant (only passed by explorations with the
+/// ghost option): how many of them precede each live datum is part of the state, because the
+/// built definition then has holes in its id sequence exactly there.
+pub fn key_of(list: &[DatumObs], with_ranks: bool, ghosts: Option<&[truc::record::definition::DatumId]>) -> Key {
+    let mut k = Vec::with_capacity(list.len() * 7 + 1);
     let mut ids: Vec<_> = list.iter().map(|d| d.id).collect();
     ids.sort();
     for d in list {
@@ -61,6 +68,13 @@ pub fn key_of(list: &[DatumObs], with_ranks: bool) -> Key {
         if with_ranks {
             k.push(ids.iter().position(|i| *i == d.id).unwrap() as u8);
         }
+        if let Some(g) = ghosts {
+            k.push(g.iter().filter(|x| **x < d.id).count().min(3) as u8);
+        }
+    }
+    if let Some(g) = ghosts {
+        // trailing marker: total number of orphan ids (capped)
+        k.push(0xF0 | g.len().min(3) as u8);
     }
     k.into_boxed_slice()
 }
@@ -176,16 +190,22 @@ pub fn explore(b: &Bounds, oracle: &Oracle, deadline: Option<Instant>, threads: 
                         }
                         let (hist, m) = &frontier[i];
                         let rems = subsets(*m, b.removals);
-                        let ghosts: Vec<Option<Shape>> = if b.ghosts {
-                            vec![None, Some(Shape::new(4, 4))]
+                        // (ghost shape, removed late)
+                        let ghosts: Vec<(Option<Shape>, bool)> = if b.ghosts && b.ghosts_late {
+                            vec![(None, false), (Some(Shape::new(4, 4)), false), (Some(Shape::new(4, 4)), true)]
+                        } else if b.ghosts {
+                            vec![(None, false), (Some(Shape::new(4, 4)), false)]
                         } else {
-                            vec![None]
+                            vec![(None, false)]
                         };
                         for rem in &rems {
                             for adds in seqs {
-                                for ghost in &ghosts {
+                                for (ghost, ghost_late) in &ghosts {
                                     if level > 0 && rem.is_empty() && adds.is_empty() && ghost.is_none() {
                                         continue; // the no-op close belongs to request mode
+                                    }
+                                    if *ghost_late && adds.is_empty() {
+                                        continue; // same as the immediate removal
                                     }
                                     for &strat in &b.strategies {
                                         // with no addition the four strategies only differ in how
@@ -194,15 +214,39 @@ pub fn explore(b: &Bounds, oracle: &Oracle, deadline: Option<Instant>, threads: 
                                         h2.push(Step {
                                             remove: rem.clone(),
                                             ghost: *ghost,
+                                            ghost_late: *ghost_late,
                                             add: adds.clone(),
                                             strat,
                                         });
-                                        let ex = execute(&h2, b.naming);
                                         transitions.fetch_add(1, Ordering::Relaxed);
-                                        let closed = ex.variants.len() == h2.len()
-                                            || (level > 0 && rem.is_empty() && adds.is_empty());
-                                        let last = ex.variants.last().cloned().unwrap_or_default();
-                                        let (vs, dg) = oracle(&h2, ex);
+                                        // the real API may panic under our feet (looking a datum of a
+                                        // closed variant up by id, ...): that is a verdict, not a crash
+                                        let judged = std::panic::catch_unwind(std::panic::AssertUnwindSafe(|| {
+                                            let ex = execute(&h2, b.naming);
+                                            let closed = ex.failure.is_none();
+                                            let last = ex.variants.last().cloned().unwrap_or_default();
+                                            let ghost_ids = ex.ghosts.clone();
+                                            let (vs, dg) = oracle(&h2, ex);
+                                            (closed, last, ghost_ids, vs, dg)
+                                        }));
+                                        let (closed, last, ghost_ids, vs, dg) = match judged {
+                                            Ok(x) => x,
+                                            Err(p) => (
+                                                false,
+                                                vec![],
+                                                vec![],
+                                                vec![Violation::new(
+                                                    format!("{}/panic-while-observing", b.prop),
+                                                    format!(
+                                                        "the builder's own lookups panicked while the history was replayed and observed: {} ({})",
+                                                        vcommon::panic_message(&*p),
+                                                        h2.iter().map(Step::describe).collect::<Vec<_>>().join(" ; ")
+                                                    ),
+                                                    history_json(&h2),
+                                                )],
+                                                0,
+                                            ),
+                                        };
                                         digest.fetch_xor(dg, Ordering::Relaxed);
                                         if !vs.is_empty() {
                                             violating.fetch_add(1, Ordering::Relaxed);
@@ -228,7 +272,7 @@ pub fn explore(b: &Bounds, oracle: &Oracle, deadline: Option<Instant>, threads: 
                                             continue;
                                         }
                                         max_live.fetch_max(last.len(), Ordering::Relaxed);
-                                        let key = key_of(&last, b.with_ranks);
+                                        let key = key_of(&last, b.with_ranks, b.ghosts.then_some(&ghost_ids[..]));
                                         let shard = (key.iter().fold(0u32, |a, x| a.wrapping_mul(31).wrapping_add(*x as u32)) & 255) as usize;
                                         if seen[shard].lock().unwrap().contains(&key) {
                                             continue;
@@ -287,8 +331,8 @@ pub fn explore(b: &Bounds, oracle: &Oracle, deadline: Option<Instant>, threads: 
             let mut s = seen[shard].lock().unwrap();
             for (k, h) in m {
                 // live count = number of entries of the key
-                let per = if b.with_ranks { 6 } else { 5 };
-                frontier.push((h, k.len() / per));
+                let per = 5 + b.with_ranks as usize + b.ghosts as usize;
+                frontier.push((h, (k.len() - b.ghosts as usize) / per));
                 s.insert(k);
             }
         }
